@@ -6,7 +6,7 @@ from checks.common import *
 META = dict(
     engine="coq+hx_core",
     technique="Coq proof (consequences of C01 for a leaked / restored storage transaction counter) + failure injection at every storage call of a generated query through a public StorageData wrapper",
-    level_text="PARTIAL, with a recorded known finding. Machine-checked: C32_leak_refuted_all_later_work_lost — once a failed call leaves the storage nesting counter >= 1 no later operation flushes and closing or crashing at any point "
+    level_text="PARTIAL, with recorded known findings (4 classes: later work lost, partial effect visible, later panic, later query never returns — one root cause family). Machine-checked: C32_leak_refuted_all_later_work_lost — once a failed call leaves the storage nesting counter >= 1 no later operation flushes and closing or crashing at any point "
                "returns the file to the last flush (the defect, for all later histories); C32_flushed_work_is_kept_partial — with the counter back at 0 completed transactions survive reopen; C32_reopen_is_a_flush_point — whatever failed, "
                "the reopened file is the file of some completed flush. Tie to /repo: for generated histories the chosen query is re-run once per storage call with that write/resize failing (DbImpl::with_data over FileStorage / "
                "FileStorageMemoryMapped); oracle: error reported, order-normalised dump unchanged, later queries usable, dump after close + reopen with the plain back-end equals the in-process dump, reopened file fully readable. The *_guarded theorems state the same for the recovery with the position check of apply_wal_record (model recover_g, fixes/C07-wal-position.diff): on these logs the check never fires (C01_guarded_recovery_agrees), so the statements hold for a tree with or without it.",
